@@ -106,8 +106,12 @@ def write_meta(patch, r):
 
 def main():
     args = [a for a in sys.argv[1:] if not a.startswith("--")]
-    allc = "--all-checks" in sys.argv
+    allc = "--all-checks" in sys.argv or "--benign" in sys.argv
     patches = sorted(glob.glob(os.path.join(HERE, "mutants", "*.patch")) + glob.glob(os.path.join(VERIF, "seeded", "*", "patch.diff")))
+    if "--benign" in sys.argv:
+        # behaviour-preserving refactorings: every check must stay silent (exit 0; exit 2 = inconclusive is tolerated and listed)
+        patches = sorted(glob.glob(os.path.join(VERIF, "benign", "*", "patch.diff")))
+        allc = True
     if args:
         patches = [p for p in patches if any(a in p for a in args)]
     results = []
@@ -123,6 +127,12 @@ def main():
     if out:
         with open(out[0], "w") as f:
             json.dump(results, f, indent=1)
+    if "--benign" in sys.argv:
+        for r in results:
+            alarms = [c for c, v in r.get("checks", {}).items() if v["exit"] == 1]
+            inconc = [c for c, v in r.get("checks", {}).items() if v["exit"] == 2]
+            print("BENIGN %s: tests=%s alarms=%s inconclusive=%s %s" % (r["patch"], r.get("baseline_tests"), alarms, inconc, r.get("error", "")))
+        return 0
     missed = [r["patch"] for r in results if not r.get("caught")]
     print("SUMMARY: %d patches, %d caught, missed: %s" % (len(results), len(results) - len(missed), missed))
     return 0
